@@ -133,5 +133,58 @@ goes out in at most two calls) -/
 def sequentialSchedule (queues : List (List Json)) : List Nat :=
   (queues.zipIdx.map fun (q, i) => List.replicate (6 * q.length) i).flatten
 
+/-! ### creating the file: several sinks opening one missing path at the same time -/
+
+/-- where a sink is on its way from `build()` to its writes -/
+inductive OpenPC where
+  | start
+  /-- the code before the repair: `path.exists()` said no; `fs::write(path, header)` comes next -/
+  | sawMissing
+  /-- `create_new` succeeded: this sink made the (empty) file and owes it the header -/
+  | created
+  /-- the handle is open in append mode -/
+  | opened
+  deriving DecidableEq, Inhabited
+
+/-- a sink that opens the file and then appends its records (each one `write` call) -/
+structure Opener where
+  pc : OpenPC := .start
+  records : List (List Char)
+  deriving Inhabited
+
+structure OpenState where
+  /-- `none`: the path is missing; otherwise the pieces in the file -/
+  file : Option (List (List Char))
+  openers : List Opener
+  deriving Inhabited
+
+/-- one step of sink `i`.  `checkThenWrite = true` is `WriteMode::Append` before the repair
+(`if !path.exists() { fs::write(path, header) }`, then open for appending): the test and the write are two
+steps, and `fs::write` TRUNCATES.  `false` is the repaired code: `create_new` (one step: fails when the file is
+there), then the header on the same append-mode handle. -/
+def openStep (checkThenWrite : Bool) (header : List Char) (st : OpenState) (i : Nat) : OpenState :=
+  match st.openers[i]? with
+  | none => st
+  | some o =>
+    match o.pc with
+    | .start =>
+      if checkThenWrite then
+        { st with openers := st.openers.set i { o with pc := if st.file.isSome then .opened else .sawMissing } }
+      else
+        match st.file with
+        | some _ => { st with openers := st.openers.set i { o with pc := .opened } }
+        | none => { file := some [], openers := st.openers.set i { o with pc := .created } }
+    | .sawMissing =>
+      -- only the old code gets here
+      if checkThenWrite then { file := some [header], openers := st.openers.set i { o with pc := .opened } } else st
+    | .created => { file := st.file.map (· ++ [header]), openers := st.openers.set i { o with pc := .opened } }
+    | .opened =>
+      match o.records with
+      | [] => st
+      | r :: rest => { file := st.file.map (· ++ [r]), openers := st.openers.set i { o with records := rest } }
+
+def openExec (checkThenWrite : Bool) (header : List Char) (st : OpenState) (schedule : List Nat) : OpenState :=
+  schedule.foldl (openStep checkThenWrite header) st
+
 end SinkFine
 end Compass
